@@ -326,5 +326,10 @@ def run_case(case, work, rec):
     rec.count("pool_calls_nonidentity", sum(1 for c in pools.CTL.calls if list(c[2]) != sorted(c[2])))
     for p in pools.check_log():
         rec.violation("pool log: " + p)
-    for f in contracts.FAILS[:5]:
-        rec.violation(f"contract on {f['contract']} broken at the source: {f['detail']}", witness=f)
+    # contracts hang on internal functions: a failure is a verdict only when the case also failed
+    # behaviourally (then it localises the defect); alone it is reported as an observation
+    if contracts.FAILS:
+        rec.count("contract_failures", len(contracts.FAILS))
+        if rec.violations:
+            for f in contracts.FAILS[:3]:
+                rec.violation(f"(diagnostic) contract on {f['contract']} broken at the source: {f['detail']}", witness=f)
